@@ -332,6 +332,7 @@ def snippet(spec, hist, note=""):
         "    def hyp(self, x, y): return x * x + y * y",
         "    def kw(self, *a, **k): return (tuple(a), tuple(k.items()))",
         "    def size(self, c): return len(c)",
+        "    def pair(self, x): return (x, x * 2)",
         "class O:",
         "    def __init__(self, **kw): self.__dict__.update(kw)",
         "PObj = O",
